@@ -54,6 +54,8 @@ int main(int argc, char** argv) {
   reg_gtx<2>(); reg_gtx<3>(); reg_gtx<4>();
   add_unit("closest_3", 9, 3, [](auto const* x, auto* o) { using T = TY(o); stv(o, glm::closestPointOnLine(ldv<3, T>(x), ldv<3, T>(x + 3), ldv<3, T>(x + 6))); });
   add_unit("closest_2", 6, 2, [](auto const* x, auto* o) { using T = TY(o); stv(o, glm::closestPointOnLine(ldv<2, T>(x), ldv<2, T>(x + 2), ldv<2, T>(x + 4))); });
+  // scalar (genType) overload of gtx angle
+  add_unit("sangle", 2, 1, [](auto const* x, auto* o) { o[0] = glm::angle(x[0], x[1]); });
   add_unit("orientedangle_2", 4, 1, [](auto const* x, auto* o) { using T = TY(o); o[0] = glm::orientedAngle(ldv<2, T>(x), ldv<2, T>(x + 2)); });
   add_unit("orientedangle_3", 9, 1, [](auto const* x, auto* o) { using T = TY(o); o[0] = glm::orientedAngle(ldv<3, T>(x), ldv<3, T>(x + 3), ldv<3, T>(x + 6)); });
   add_unit("l1norm_3", 3, 1, [](auto const* x, auto* o) { using T = TY(o); o[0] = glm::l1Norm(ldv<3, T>(x)); });
